@@ -32,7 +32,7 @@ def main():
                 for v in (a, b):
                     ctx.assume(tm.band(tm.bnot(tm.eq(v, 0, W)), tm.ult(v, toy.n, W)))
                 ka, kb = T.new_private_key(m, a), T.new_private_key(m, b)
-                pa, pb = m.load(ka)[2], m.load(kb)[2]
+                pa, pb = T.fld(m, ka, T.PRIV_T, 'publicKey'), T.fld(m, kb, T.PRIV_T, 'publicKey')
                 s1, e1 = m.call(SK + 'ECDH', [ka, pb])
                 s2, e2 = m.call(SK + 'ECDH', [kb, pa])
                 sub.note_machine(m)
@@ -65,12 +65,11 @@ def main():
                 spec = tm.band(tm.bnot(tm.eq(v16, 0, W)), tm.ult(v16, toy.n, W)) if L == 32 else False
                 if err is None:
                     ctx.check(spec, 'bv:accepted-implies-32-bytes-and-1<=d<n')
-                    kt = m.load(k)
-                    ctx.check(tm.eq(m.toy_sval(kt[1]), v16, W), 'bv:scalar=d')
-                    pub = m.load(kt[2])
-                    ctx.check(tm.eq(m.toy_pget(pub[1]), v16, W), 'bv:public-point=d*G')
+                    ctx.check(tm.eq(m.toy_sval(T.fld(m, k, T.PRIV_T, 'scalar')), v16, W), 'bv:scalar=d')
+                    pub = T.fld(m, k, T.PRIV_T, 'publicKey')
+                    ctx.check(tm.eq(m.toy_pget(T.fld(m, pub, T.PUB_T, 'point')), v16, W), 'bv:public-point=d*G')
                     want = [4] + T.be32(toy.X(v16)) + T.be32(toy.Y(v16))
-                    ctx.check(tm.eq(cat_bytes(m.slice_elems(pub[2])), cat_bytes(want), 520), 'bv:cached-encoding')
+                    ctx.check(tm.eq(cat_bytes(m.slice_elems(T.fld(m, pub, T.PUB_T, 'pointBytes'))), cat_bytes(want), 520), 'bv:cached-encoding')
                     # accessors hand out copies
                     b1 = m.call(SK + 'Bytes', [k])
                     ctx.check(tm.eq(cat_bytes(m.slice_elems(b1)), cat_bytes(bs), 256), 'bv:Bytes()=canonical-encoding')
@@ -107,7 +106,7 @@ def main():
             spec = tm.band(tm.bnot(tm.eq(v, 0, 256)), tm.ult(v, N_ORDER, 256))
             if err is None:
                 ctx.check(spec, 'bv:accepted-implies-1<=d<n')
-                ctx.check(tm.eq(tm.lift(cat_limbs(list(m.load(m.load(k)[1])[1])), 256), v, 256), 'bv:scalar=d')
+                ctx.check(tm.eq(tm.lift(cat_limbs(list(m.load(T.fld(m, k, T.PRIV_T, 'scalar'))[1])), 256), v, 256), 'bv:scalar=d')
                 ctx.check(tm.eq(marker.get('scalar', 0), v, 256), 'bv:public-key-derived-from-d')
                 return 'ok'
             ctx.check(tm.bnot(spec), 'bv:rejected-implies-0-or>=n')
@@ -143,7 +142,7 @@ def main():
                     spec, idx = False, 0     # the identity encoding 0x00 is rejected
                 if err is None:
                     ctx.check(spec, 'bv:accepted-implies-valid-non-identity-point')
-                    kt = m.load(k)
+                    kt = [None, T.fld(m, k, T.PUB_T, 'point'), T.fld(m, k, T.PUB_T, 'pointBytes')]
                     q = m.toy_pget(kt[1])
                     ctx.check(tm.eq(q, idx, W), 'bv:point-decoded')
                     ctx.check(tm.bnot(tm.eq(q, 0, W)), 'bv:never-identity')
@@ -186,7 +185,7 @@ def main():
                     ctx.assume(tm.ult(c06.sqrt_of(yy), c06.P, 256))
                 if err is None:
                     ctx.check(acc, 'bv:accepted-implies-valid-non-identity-SEC1-point')
-                    kt = m.load(k)
+                    kt = [None, T.fld(m, k, T.PUB_T, 'point'), T.fld(m, k, T.PUB_T, 'pointBytes')]
                     st = c06.pt_state(kt[1].obj)
                     ctx.check(tm.band_all([tm.eq(st[0], x, 256), tm.eq(st[1], y, 256), tm.eq(st[2], 1, 256), tm.eq(st[3], True, 0)]), 'bv:point=(x,y,1)')
                     if kind == 'uncompressed':
